@@ -500,6 +500,7 @@ def run(chk: Check):
         "the running interpreter (field names, scalar kinds, location keys and pair coherence); lost captures, operator "
         "class vs spelling, operand order, associativity, the precedence ladder, the span helper and the argument layout "
         "are decided syntactically / by provenance on the IR of the parser that runs.")
+    chk.explanation += ' Also evaluated here, as necessary conditions of tree equality with CPython: the node well-formedness rules of C04, the token text/position rules of C08 and the lexical-agreement rules of C09 (under their own rule ids).'
     chk.trusted = ["ast.X.__doc__ ASDL signatures", "ast._Unparser operator tables", "xpverif.pyir decompiler",
                    "xpverif.absint abstract semantics of the supported Python subset", "SOURCE_ORDER and LADDER tables"]
     chk.assumptions = ["C16 holds (grammar and generated module agree), so grammar-level reports apply to the shipped parser",
